@@ -35,6 +35,9 @@ def drive(rec):
                       rec["number"], rec["choice"], rec["slab"])}}
     cr = xtal.build_crystal(rec)
     sg = cr.space_group
+    # coordinates given to d <= 5 decimals (0.333, 0.6667) sit within 10^-d of their grid point, and so do their images
+    dec = int(rec.get("decimals") or 0)
+    tol = 1e-6 if not (0 < dec <= 5) else 4.0 * 10.0 ** (-dec)
     t["ops"] = [int(s.integer_code) for s in sg.symmetry_operations]
     t["table_ops"] = rec["table_ops"]
     n = rec["n"]
@@ -63,18 +66,18 @@ def drive(rec):
         for r in np.asarray(raw, dtype=float):
             p = []
             for x in r:
-                k, o = to_grid(float(x), n, 1e-6)
+                k, o = to_grid(float(x), n, tol)
                 p.append(k)
                 off |= o
             rows.append(p)
         t["applied"].update(codes=[int(c) for c in codes], raw=rows, off=bool(off))
     else:
         t["applied"]["exc"] = "not-called"
-    rows, cc, off = xtal.project_rows(uc, n, rec["gram"], rec["u"])
+    rows, cc, off = xtal.project_rows(uc, n, rec["gram"] if tol == 1e-6 else None, rec["u"], tol=tol)
     t["uc"].update(rows=rows, cc=cc, off=bool(off))
     try:
         sl = cr.slab(bounds=(tuple(rec["slab"][0]), tuple(rec["slab"][1])))
-        srows, _, soff = xtal.project_rows(sl, n, None, rec["u"], with_cell=True)
+        srows, _, soff = xtal.project_rows(sl, n, None, rec["u"], with_cell=True, tol=tol)
         t["slab"].update(rows=srows, off=bool(soff), n_uc=int(sl["n_uc"]), n_cells=int(sl["n_cells"]))
     except Exception as e:
         t["slab"]["exc"] = type(e).__name__
@@ -112,7 +115,7 @@ def recipes_for(ctx, rows, per_setting):
             gram = xtal.sym_gram(r["ops"], rng)
             out.append({"number": r["number"], "choice": r["choice"], "table_ops": r["ops"], "n": 12, "gram": gram,
                         "u": rng.uniform(3.0, 12.0) / (max(gram[i][i] for i in range(3)) ** 0.5),
-                        "asym": asym, "slab": [[-1, 0, 0], [0, 0, 1]], "route": "params", "decimals": rng.choice([12, 9, 12]),
+                        "asym": asym, "slab": [[-1, 0, 0], [0, 0, 1]], "route": "params", "decimals": rng.choice([12, 9, 5, 4, 3, 3]),
                         "src": "file-precision special positions"})
     # objects that were used in hexagonal axes and then switched in place to rhombohedral axes (the unit cell must be that of
     # the new setting, whatever was computed before)
@@ -167,7 +170,7 @@ def run(ctx):
                 "positions on grids N in {12,24,48}, occupancies 1, 1/2, 1/3, 1/4, cells from a symmetrised integer Gram "
                 "matrix, built from parameters or lattice vectors); non-trivial = at least one site on a special position "
                 "(merged images) in a group of order > 1; the trigonal/hexagonal/cubic settings additionally get special positions in "
-                "thirds/sixths/twelfths given to file precision (9 or 12 decimals)" % (len(rows), ctx.pick(1, 8)))
+                "thirds/sixths/twelfths given to file precision (12, 9, 5, 4 or 3 decimals: 0.333333333 ... 0.333)" % (len(rows), ctx.pick(1, 8)))
     ctx.explanation = ("settings enumerated completely; MC_Crystal enumerates %s sites of the N=12 grid for every setting; "
                        "asymmetric units and cells are sampled" % ("all 1728" if not ctx.quick else "7"))
     ctx.exhaustive = False
